@@ -692,3 +692,65 @@ class AddComponent(FnSpec):
 
 def register4(reg):
     reg.add(AddComponent)
+
+
+WATCH = "_component._watch_component_tree_startup"
+
+
+class _Summaries(FnSpec):
+    """A-DIAG: the two nested report builders of the startup watchdog only read the component tree and format strings"""
+    assumed = "A-DIAG"
+    modifies = frozenset()
+    may_raise = False
+    ret_type = LIST(TSTR)
+    check_guarantee = False
+    param_types = {"subcontext": INST("ComponentContext")}
+
+    def requires(self, F):
+        return []
+
+    def ensures(self, F):
+        return [("fresh-list", F.fresh(F.result.t))]
+
+
+class StatusSummaries(_Summaries):
+    qual = WATCH + ".create_status_summaries"
+
+
+class StackSummaries(_Summaries):
+    qual = WATCH + ".create_stack_summaries"
+
+
+class WatchStartup(FnSpec):
+    """C07: the startup watchdog sleeps exactly once for the given timeout and then - whatever the report looks like - raises TimeoutError;
+    it never returns normally and writes nothing but its own report lists."""
+    qual = WATCH
+    properties = ("C07",)
+    param_types = {"context": INST("ComponentContext"), "timeout": ANY}
+    modifies = "rely"
+    suspends = True
+    may_raise = True
+    frame_rule = True
+
+    def requires(self, F):
+        return []
+
+    def local_ensures(self, F):
+        return [("never-returns-normally", z3.BoolVal(False))]
+
+    def local_raises(self, F):
+        tr = F.new_st.trace
+        sleeps = [e for e in tr if e[0] in ("opaque", "opaque-raise") and "sleep" in str(e[4])]
+        news = [e for e in tr if e[0] == "new_exc"]
+        out = [("sleeps-exactly-once-for-the-given-timeout",
+                z3.And(z3.BoolVal(len(sleeps) == 1 and len(sleeps[0][2]) == 1), *([sleeps[0][2][0].t == F.t("timeout")] if len(sleeps) == 1 and len(sleeps[0][2]) == 1 else [])))]
+        if news:
+            out.append(("raises-TimeoutError-only-after-the-sleep-returned", z3.BoolVal(news[-1][1] == "TimeoutError" and len(sleeps) == 1 and sleeps[0][0] == "opaque")))
+        else:
+            out.append(("otherwise-only-the-sleep-itself-raised", z3.BoolVal(len(sleeps) == 1 and sleeps[0][0] == "opaque-raise")))
+        return out
+
+
+def register5(reg):
+    for s in (StatusSummaries, StackSummaries, WatchStartup):
+        reg.add(s)
